@@ -24,4 +24,17 @@ if [ $? -ne 0 ]; then
   exit 2
 fi
 rm -f "$LOG"
-exec "$HERE/harness/target/release/check" "$ID" --tier "$TIER" "$@"
+"$HERE/harness/target/release/check" "$ID" --tier "$TIER" "$@"
+code=$?
+# thorough tier: coverage-guided fuzzing campaigns (byte-level properties) and the ASan replay (C19)
+if [ "$TIER" = "thorough" ] && [ $# -eq 0 ] && [ $code -ne 2 ]; then
+  python3 "$HERE/tools/fuzz_stage.py" "$ID"; c2=$?
+  [ $c2 -eq 1 ] && code=1
+  [ $c2 -eq 2 ] && [ $code -eq 0 ] && code=2
+  if [ "$ID" = "C19" ]; then
+    "$HERE/tools/asan_replay.sh"; c3=$?
+    [ $c3 -eq 1 ] && code=1
+    [ $c3 -eq 2 ] && [ $code -eq 0 ] && code=2
+  fi
+fi
+exit $code
